@@ -76,7 +76,10 @@ class Spec:
 
 class Record:
     def __init__(self, name: str, module: str, fields: Dict[str, str], construct: Optional[str] = None,
-                 invariant: Optional[str] = None, file: Optional[str] = None):
+                 invariant: Optional[str] = None, file: Optional[str] = None,
+                 enum: Optional[List[Dict[str, Any]]] = None, value_eq: bool = True):
+        self.enum = enum or []          # small field assignments for cross-check / shadow inputs
+        self.value_eq = value_eq        # dataclass-style structural __eq__
         self.name = name
         self.module = module
         self.fields = fields
